@@ -122,6 +122,11 @@ struct iluk {
 
             while(!w.q.empty()) {
                 nonzero &a = w.next_nonzero();
+
+                // Entries above the fill level are dropped at the end of
+                // the row and must not be used as pivots.
+                if (a.lev > prm.k) continue;
+
                 a.val = a.val * (*D)[a.col];
 
                 for(ptrdiff_t j = Uptr[a.col], e = Uptr[a.col+1]; j < e; ++j) {
@@ -133,6 +138,8 @@ struct iluk {
             w.sort();
 
             for(const nonzero &e : w.nz) {
+                if (e.lev > prm.k) continue;
+
                 if (e.col < i) {
                     Lcol.push_back(e.col);
                     Lval.push_back(e.val);
@@ -235,12 +242,15 @@ struct iluk {
 
             void add(ptrdiff_t col, const value_type &val, int lev) {
                 if (idx[col] < 0) {
-                    if (lev <= lfil) {
-                        int p = nz.size();
-                        idx[col] = p;
-                        nz.push_back(nonzero(col, val, lev));
-                        if (col < dia) q.push(p);
-                    }
+                    // Keep the entry even if its level is (so far) too
+                    // high: a later update may lower the level, and then
+                    // the contributions collected up to that point must
+                    // not be lost. Entries that stay above lfil are
+                    // dropped when the row is stored.
+                    int p = nz.size();
+                    idx[col] = p;
+                    nz.push_back(nonzero(col, val, lev));
+                    if (col < dia) q.push(p);
                 } else {
                     nonzero &a = nz[idx[col]];
                     a.val += val;
